@@ -177,7 +177,7 @@ def run_units(prop, tier, units, rule, assumptions, level_expl='', replay_dir=No
     rep = Report(prop, tier)
     rep.assumptions = list(assumptions)
     rng = random.Random(SEED)
-    replay_dir = replay_dir or os.path.join(VERIF, 'replay', prop)
+    replay_dir = replay_dir or os.path.join(os.environ.get('VERIF_REPLAY_DIR') or os.path.join(VERIF, 'replay'), prop)
     os.makedirs(replay_dir, exist_ok=True)
     t0 = time.time()
 
